@@ -81,14 +81,19 @@ pub fn replay_line(st: &mut Stats, prop: &str, idx: usize, line: &Value) {
     st.cases += 1;
     let files = render(&line["files"]);
     let exp = expected_of(&line["o"], &line["expect"]);
-    let all = [Focus::Struct, Focus::Ann, Focus::Ic, Focus::Meta];
+    let all = [Focus::Struct, Focus::Ann, Focus::Meta];
+    let everything = [Focus::Struct, Focus::Ann, Focus::Ic, Focus::Meta];
     let mut diffs: Vec<String> = vec![];
+    let mut loaded: Option<Expected> = None;
     for (what, transitive) in [("from_standard", false), ("from_standard_transitive", true)] {
         st.evaluations += 1;
         match via_jax(&files, transitive) {
             Ok(ont) => {
                 for x in compare(&ont, &exp, &all) {
                     diffs.push(format!("{what}: {x}"));
+                }
+                if loaded.is_none() {
+                    loaded = Some(observe(&ont));
                 }
             }
             Err(e) => diffs.push(format!("{what} failed on a file set inside the documented envelope: {e}")),
@@ -100,8 +105,11 @@ pub fn replay_line(st: &mut Stats, prop: &str, idx: usize, line: &Value) {
         st.evaluations += 1;
         match via_builder(&scn, EdgeOrder::AsGiven, false, true) {
             Ok(ont) => {
-                for x in compare(&ont, &exp, &all) {
-                    diffs.push(format!("Builder path with the same facts: {x}"));
+                // observationally identical (everything incl. information content) to what the text loader produced
+                if let Some(l) = &loaded {
+                    for x in compare(&ont, l, &everything) {
+                        diffs.push(format!("Builder path with the same facts differs from the loaded ontology: {x}"));
+                    }
                 }
             }
             Err(e) => diffs.push(format!("Builder path failed: {e}")),
@@ -112,8 +120,10 @@ pub fn replay_line(st: &mut Stats, prop: &str, idx: usize, line: &Value) {
         let (_, b) = via_binary(&scn, 3, None);
         match b {
             Ok(ont) => {
-                for x in compare(&ont, &enc::restrict(&exp, 3), &all) {
-                    diffs.push(format!("binary path with the same facts: {x}"));
+                if let Some(l) = &loaded {
+                    for x in compare(&ont, &enc::restrict(l, 3), &everything) {
+                        diffs.push(format!("binary path with the same facts differs from the loaded ontology: {x}"));
+                    }
                 }
             }
             Err(e) => diffs.push(format!("binary path failed: {e}")),
